@@ -1,5 +1,6 @@
 import InToto.Driver.Util
 import InToto.Model.Metadata
+import InToto.Model.Validate
 open Lean
 namespace Drv
 open InToto InToto.Json InToto.Schema InToto.Metadata
@@ -72,7 +73,10 @@ def mdInfo (m : Md) : List (String × Json) :=
     | _ => "setpayload-err"
   let unsignedMb := reload (.ok (.legacy p (.list none)))
   let unsignedEnv := reload (setPayload p)
-  [("unsigned_mb_reload", Json.str unsignedMb), ("unsigned_env_reload", Json.str unsignedEnv), ("res", "ok"), ("kind", kind), ("wrapper", wrapper), ("canon", optStr (canonPayload p)), ("sigs", sigs),
+  let valid : Json := match m with
+    | .legacy pp s => Json.bool (InToto.Validate.metablockOK pp s)
+    | _ => Json.null
+  [("valid", valid), ("unsigned_mb_reload", Json.str unsignedMb), ("unsigned_env_reload", Json.str unsignedEnv), ("res", "ok"), ("kind", kind), ("wrapper", wrapper), ("canon", optStr (canonPayload p)), ("sigs", sigs),
    ("roundtrip", rt), ("dsse_payload", dssePayload), ("dsse_reload", dsseReload)]
 
 def handleMeta (op : String) (a : Json) : Option Json :=
